@@ -196,3 +196,17 @@ Proof.
     unfold read_clock. destruct (t_exp tm <? clk st) eqn:E; cbn [fst]; [apply Z.ltb_lt in E|apply Z.ltb_ge in E]; lia.
   - intros e L. rewrite L. cbn [fst]. split; [reflexivity|]. split; reflexivity.
 Qed.
+
+(* queued work (remaining_todo from the previous turn / the previous run, or timers that just expired) means
+   a zero timeout, whatever the heap holds; and the repaired qb_loop_run starts from the levels' todo counters *)
+Lemma queued_work_never_sleeps : forall fx st rem tt jt, rem > 0 \/ tt > 0 -> choose_timeout fx st rem tt jt = (0, st).
+Proof.
+  intros fx st rem tt jt H. unfold choose_timeout.
+  replace ((rem >? 0) || (tt >? 0)) with true; [reflexivity|].
+  symmetry. apply orb_true_iff. destruct H; [left|right]; apply Z.gtb_lt; lia.
+Qed.
+
+Lemma run_counts_leftover : forall beh st d ds,
+  loop_run fixed beh st (d :: ds) =
+  run_turns fixed beh (d :: ds) (set_stop st false) LT_LOOP_LOW (total_todo (set_stop st false)).
+Proof. reflexivity. Qed.
